@@ -30,6 +30,8 @@ type valWorld struct {
 	executors []henv.User
 	ops       []sdk.ValAddress   // operator addresses
 	keys      []*ed25519.PrivKey // consensus keys
+	// spellUpper, when set, decides per addition whether the operator is spelled in upper case
+	spellUpper func() bool
 	// model, from observed successes
 	bonded     map[string]int   // operator index (as string of ValAddress) -> key index, power 1
 	pending    map[string]int   // validators stored with power 1 but not yet in the bonded set (added this block)
@@ -143,7 +145,11 @@ func (w *valWorld) positive() int {
 }
 
 func (w *valWorld) add(opI, keyI int) (henv.Result, error) {
-	msg, err := opchildtypes.NewMsgAddValidator(fmt.Sprintf("m%d", opI), w.l2.Authority, w.ops[opI].String(), w.keys[keyI].PubKey())
+	opStr := w.ops[opI].String()
+	if w.spellUpper != nil && w.spellUpper() {
+		opStr = strings.ToUpper(opStr) // the same operator address in its all-upper-case spelling (valid bech32)
+	}
+	msg, err := opchildtypes.NewMsgAddValidator(fmt.Sprintf("m%d", opI), w.l2.Authority, opStr, w.keys[keyI].PubKey())
 	if err != nil {
 		return henv.Result{}, err
 	}
@@ -444,6 +450,8 @@ func (w *valWorld) invariants() error {
 
 // runBlock executes one generated block.
 func (w *valWorld) runBlock(rt *rapid.T) error {
+	w.spellUpper = func() bool { return rapid.IntRange(0, 7).Draw(rt, "upperOperator") == 0 }
+	defer func() { w.spellUpper = nil }()
 	if err := w.beginBlock(); err != nil {
 		return err
 	}
